@@ -23,25 +23,25 @@ theorem Win.winU {lo hi k0 k1 : Nat} {Δ : Env} (h : Win lo hi Δ) : WinU lo hi 
 /-- side conditions on the windows: the operands' window lies below the context's window, which lies
     below the temporaries still to be allocated -/
 structure HypW (cx : Cx) (hi : Nat) (s : St) : Prop where
-  h1 : hi ≤ cx.a0
-  h2 : cx.a1 ≤ s.counter
+  h1 : ∀ k, cx.bad k → hi ≤ k
+  h2 : ∀ k, cx.bad k → k < s.counter
   h3 : hi ≤ s.counter
 
 theorem HypW.mono {cx : Cx} {hi : Nat} {s s' : St} (h : HypW cx hi s) (hc : s.counter ≤ s'.counter) : HypW cx hi s' :=
-  ⟨h.h1, by have := h.h2; omega, by have := h.h3; omega⟩
+  ⟨h.h1, fun k hk => by have := h.h2 k hk; omega, by have := h.h3; omega⟩
 
 theorem WinU.avoidCx {cx : Cx} {lo hi : Nat} {s : St} {k1 : Nat} {Δ : Env} (hw : HypW cx hi s)
-    (h : WinU lo hi s.counter k1 Δ) : Avoid cx.a0 cx.a1 Δ := by
-  intro p hp
+    (h : WinU lo hi s.counter k1 Δ) : AvoidP cx.bad Δ := by
+  intro p hp hb
   have := h p hp
-  have := hw.h1; have := hw.h2
+  have := hw.h1 _ hb; have := hw.h2 _ hb
   omega
 
 /-- what the operand handler guarantees for one operand -/
 def OpEr (cx : Cx) (lo hi : Nat) (e : Node) (asg args : List Node) (R : (Node × List Node × List Node) × St) (s : St) : Prop :=
   ∃ new more, R.1.2.1 = asg ++ new ∧ R.1.2.2 = args ++ more ∧ AllTA new ∧ InertL more ∧ s.counter ≤ R.2.counter ∧
     (∀ σ, cx.ext σ → ∃ Δ, eraseAsg σ new = Δ ++ σ ∧ WinU lo hi s.counter R.2.counter Δ) ∧
-    (∀ σ Δ2, cx.ext σ → Avoid s.counter R.2.counter Δ2 → Avoid cx.a0 cx.a1 Δ2 →
+    (∀ σ Δ2, cx.ext σ → Avoid s.counter R.2.counter Δ2 → AvoidP cx.bad Δ2 →
       ∃ X Δ3, erase (Δ2 ++ eraseAsg σ new) R.1.1 = (X, Δ3 ++ (Δ2 ++ eraseAsg σ new)) ∧ Sim X e ∧ Win lo hi Δ3)
 
 theorem opEr_inplace (cx : Cx) (lo hi : Nat) (e' e : Node) (asg args more : List Node) (s : St)
